@@ -229,7 +229,39 @@ def c09(tier, seed):
                   min_nontrivial=500, exhaustive=True)
 
 
+def c14(tier, seed):
+    import shutil
+    import tempfile
+    res = common.Result()
+    dbg = build("dbg")
+    scratch = tempfile.mkdtemp(prefix="c14-", dir=os.path.join(common.VERIF, "run"))
+    try:
+        if tier == "quick":
+            plan = [("cli-dbg", 600)]
+            seqs = 600
+        else:
+            plan = [("cli-dbg", 4000), ("cli-rel", 4000)]
+            seqs = 15000
+        for kind, cnt in plan:
+            naija = build(kind)
+            res.absorb(run_engine(dbg, "ship", n(cnt), seed, {"stage": "cli", "naija": naija, "scratch": scratch}, build_name=kind, timeout_case=120))
+        res.absorb(run_engine(dbg, "ship", n(seqs), seed, {"stage": "playground", "scratch": scratch}, build_name="dbg-playground", timeout_case=120))
+        if tier == "thorough":
+            rel = build("rel")
+            res.absorb(run_engine(rel, "ship", n(seqs), seed + 9, {"stage": "playground", "scratch": scratch}, build_name="rel-playground", timeout_case=120))
+    finally:
+        shutil.rmtree(scratch, ignore_errors=True)
+    triage(res)
+    return finish("C14", tier, seed, "exploration", res,
+                  "stage cli: generated programs (profiles core/mem/dead/scope/array; about 4 in 12 made to fail: undeclared variable, syntax error, lexical errors, unbounded recursion, plus large allocations that force commit/decommit) each run through the real `naija` binary as a file, with --eval and on standard input (`naija -`); stdout must equal byte for byte what the library pipeline with separate arenas computes (rendered checker warnings, the shout lines, the rendered runtime error; for Stack overflow everything before the runtime diagnostic), the exit status must be 0 exactly when nothing failed, and a rejected text must not print its leading marker. Stage playground: a native derivation of wasm/src/lib.rs (text of the file, wasm-only lines dropped) runs sequences of 2-9 such programs back to back in one process, re-initialising the scratch arenas per run as the playground does; every element must equal its own result in a fresh process, and a second run in the fresh process must equal the first. Non-trivial (cli) = the program is rejected, or exercises at least one frame reset and prints at least two values; (playground) = the sequence contains a failing element followed by a passing one; distinct = hash of the text(s)",
+                  ["the implicit no-argument stdin form of the CLI never reaches run_stdin (clap's arg_required_else_help prints usage, exit 2); `naija -` is the stdin mode compared",
+                   "the playground is exercised through a native derivation of wasm/src/lib.rs (no wasm32 target here): WasmVirtualMemory and the 512 KiB wasm stack budget are not executed",
+                   "which expression of a recursion cycle trips the native stack budget depends on frame sizes, so for Stack overflow endings only the text before the runtime diagnostic and the presence of the diagnostic are compared"],
+                  min_nontrivial=30)
+
+
 CHECKS = {
+    "C14": c14,
     "C09": c09,
     "C10": c10,
     "C07": c07,
